@@ -165,6 +165,59 @@ class Drivers:
                         {"mode": "build", "group": g, "shapes": names, "detail": detail})
         if self.rejected:
             chk.extra["expansion_rejected"] = {SH.bin_name(g): d for g, d in self.rejected.items()}
+        self.expansion_warnings()
+
+    def expansion_warnings(self):
+        """rustc warnings located INSIDE the expansion of derive(ArgParse) / derive(Subcommand) of a valid
+        declaration (unreachable pattern, unused variable, dead code ..) are an outcome: the generated
+        matcher has an arm that can never run / a value that is never used.  (The unchanged tree expands
+        warning-free; the drivers' own code is outside the derive spans.)  cargo replays the diagnostics of
+        fresh units, so this is a second, cheap cargo call with JSON messages."""
+        import fcntl
+        import subprocess
+        inst = os.path.join(core.WORK, "harness-%s" % core.repo_tag())
+        bins = [SH.bin_name(g) for g in range(len(SH.groups())) if g not in self.rejected]
+        cmd = ["cargo", "build", "--offline", "--keep-going", "--message-format=json"]
+        for b in bins:
+            cmd += ["--bin", b]
+        e = dict(os.environ)
+        e["CARGO_NET_OFFLINE"] = "true"
+        e.pop("RUSTFLAGS", None)
+        lock = open(os.path.join(core.WORK, ".cargo-%s.lock" % core.repo_tag()), "w")
+        fcntl.flock(lock, fcntl.LOCK_EX)
+        try:
+            p = subprocess.run(cmd, cwd=inst, env=e, stdout=subprocess.PIPE, stderr=subprocess.DEVNULL, text=True, timeout=1800)
+        finally:
+            fcntl.flock(lock, fcntl.LOCK_UN)
+            lock.close()
+        found = {}
+        for l in p.stdout.splitlines():
+            try:
+                d = json.loads(l)
+            except ValueError:
+                continue
+            if d.get("reason") != "compiler-message" or not d["target"]["name"].startswith("clishapes_g"):
+                continue
+            m = d["message"]
+            if m["level"] != "warning":
+                continue
+            macros = set()
+            for sp in m.get("spans", []):
+                x = sp.get("expansion")
+                while x:
+                    macros.add(x.get("macro_decl_name", ""))
+                    x = x["span"].get("expansion")
+            if any("ArgParse" in k or "Subcommand" in k for k in macros):
+                code = (m.get("code") or {}).get("code") or "warning"
+                found.setdefault((d["target"]["name"], code), []).append(m["message"])
+        for (b, code), msgs in sorted(found.items()):
+            g = int(b[-2:]) - 1
+            names = [SH.SHAPES[i - 1]["name"] for i in SH.groups()[g]]
+            self.chk.violate({"op": "derive", "got": "expansion_warns", "lint": code},
+                             "rustc warns inside the derive expansion of a valid declaration (driver %s, shapes %s): %s: %s (%d x)" % (
+                                 b, ", ".join(names), code, msgs[0][:160], len(msgs)),
+                             {"mode": "build", "group": g, "shapes": names, "lint": code, "messages": msgs[:5]})
+        self.chk.extra["expansion_warnings"] = sum(len(v) for v in found.values())
 
     def ok(self, s):
         return SH.group_of(s) not in self.rejected
@@ -367,6 +420,22 @@ def judge_inputs(rng, tier, renders):
             for l in (litl if tier != "quick" else [litl[(n + j) % len(litl)] for j in range(min(2, len(litl)))]):
                 out.append({"s": s, "a": [l, t], "why": "after-literal"})
             out.append({"s": s, "a": [t, b("-h")], "why": "before-help"})
+        # a field of the user's own type whose FromStr error displays the rejected text char by char:
+        # texts ending in a 1..4-byte character, of every length around what is left of the cause buffer
+        for lvl, stt in SH.walk(shape):
+            if lvl:
+                continue
+            for f in stt["fields"]:
+                if f["rust"] != "Wide":
+                    continue
+                for n in range(40, 101):
+                    for tail in ("x", "\u00e9", "\u20ac", "\U0001f600"):
+                        t = b("q" * n + tail)
+                        if f["kind"] == "positional":
+                            out.append({"s": s, "a": [b("--wide"), b("1"), t], "why": "wide-error"})
+                        else:
+                            for l in SH.lits(f):
+                                out.append({"s": s, "a": [b(l), t], "why": "wide-error"})
         # every literal followed by a non-UTF-8, a long and a plain value; specials in second position
         for l in litl:
             for t in ([0xFF], b("a" * 300), b("x")):
@@ -417,7 +486,7 @@ def judge_inputs(rng, tier, renders):
 def check_cause(chk, drv, tier):
     cfg = os.path.join(chk.work, "CliCause.cfg")
     with open(cfg, "w") as f:
-        f.write("CONSTANTS\n  Pieces = {0, 1, 27, 60, 67, 68, 100, 127, 128, 129, 300}\n  MaxPieces = %d\n" % (3 if tier == "quick" else 4))
+        f.write("CONSTANTS\n  Mode = \"pieces\"\n  PreSet = {}\n  MaxChars = 0\n  Pieces = {0, 1, 27, 60, 67, 68, 100, 127, 128, 129, 300}\n  MaxPieces = %d\n" % (3 if tier == "quick" else 4))
         f.write("INIT Init\nNEXT Next\nINVARIANTS LenBounded TranscriptionIsDefinition Emit\n")
     res = core.run_tlc("CliCause.tla", cfg, workers=4, timeout=1200)
     core.tlc_must_pass(res, "CliCause")
@@ -426,8 +495,24 @@ def check_cause(chk, drv, tier):
     expect = sum(11 ** k for k in range((3 if tier == "quick" else 4) + 1))
     if len(vecs) != expect:
         raise core.ToolError("CliCause printed %d vectors, expected %d" % (len(vecs), expect))
+    # text written character by character (write_char), ending at every offset around the capacity
+    maxch = 2 if tier == "quick" else 3
+    cfg2 = os.path.join(chk.work, "CliCause_chars.cfg")
+    with open(cfg2, "w") as f:
+        f.write("CONSTANTS\n  Mode = \"chars\"\n  Pieces = {}\n  MaxPieces = 0\n  PreSet = {%s}\n  MaxChars = %d\n" % (
+            ", ".join(map(str, range(116, 134))), maxch))
+        f.write("INIT Init\nNEXT Next\nINVARIANTS LenBounded TranscriptionIsDefinition Emit\n")
+    res2 = core.run_tlc("CliCause.tla", cfg2, workers=4, timeout=1200)
+    core.tlc_must_pass(res2, "CliCause (chars)")
+    chk.add_tlc(res2)
+    cvecs = res2.printed("C")
+    if len(cvecs) != 18 * sum(4 ** k for k in range(1, maxch + 1)):
+        raise core.ToolError("CliCause (chars) printed %d vectors" % len(cvecs))
+    for v in cvecs:
+        v["chars"] = True
+    vecs = vecs + cvecs
     path = os.path.join(chk.work, "cause.ndjson")
-    core.write_ndjson(path, [{"pieces": v["pieces"]} for v in vecs])
+    core.write_ndjson(path, [{"pieces": v["pieces"], "chars": v.get("chars", False)} for v in vecs])
     p = core.run_cmd([drv.any_exe(), "cause", path], timeout=1200)
     lines = [json.loads(l) for l in p.stdout.splitlines()]
     if len(lines) != len(vecs):
@@ -435,7 +520,10 @@ def check_cause(chk, drv, tier):
     nontriv = 0
     drift = []
     for v, l in zip(vecs, lines):
-        text = "".join(chr(ord("a") + k % 26) * n for k, n in enumerate(v["pieces"]))
+        if v.get("chars"):
+            text = "a" * v["pieces"][0] + "".join("x\u00e9\u20ac\U0001f600"[w - 1] for w in v["pieces"][1:])
+        else:
+            text = "".join(chr(ord("a") + k % 26) * n for k, n in enumerate(v["pieces"]))
         for api in ("str", "fmt"):
             r = l[api]
             chk.evaluations += 1
@@ -452,9 +540,10 @@ def check_cause(chk, drv, tier):
                 drift.append({"pieces": v["pieces"], "api": api, "real": [r["via"], r["len"]], "model": [v["via"], v["len"]]})
             if what:
                 chk.violate({"op": "cause_buffer", "api": "new_cause_" + api, "kind": "panic" if r["via"] == "panic" else "mismatch",
-                             "fits": v["via"] == "ok"},
-                            "ArgParseError::new_cause_%s with pieces %s %s" % (api, v["pieces"], what),
-                            {"mode": "cause", "pieces": v["pieces"], "api": api, "actual": r, "expected": v})
+                             "fits": v["via"] == "ok", "by": "write_char" if v.get("chars") else "write_str"},
+                            "ArgParseError::new_cause_%s with %s %s %s" % (
+                                api, "a prefix + characters of byte lengths" if v.get("chars") else "pieces", v["pieces"], what),
+                            {"mode": "cause", "pieces": v["pieces"], "chars": v.get("chars", False), "api": api, "actual": r, "expected": v})
         if sum(v["pieces"]) > 100:
             nontriv += 1
     chk.extra["cause_buffer_drift"] = len(drift)
@@ -684,7 +773,7 @@ def replay(path):
         return 0
     if rp.get("mode") == "cause":
         p = os.path.join(chk.work, "replay_cause.ndjson")
-        core.write_ndjson(p, [{"pieces": rp["pieces"]}])
+        core.write_ndjson(p, [{"pieces": rp["pieces"], "chars": rp.get("chars", False)}])
         print(core.run_cmd([drv.any_exe(), "cause", p]).stdout)
         return 0
     raw = run_driver(chk, drv, [{"s": rp["s"], "a": rp["a"]}], "replay")[0]
